@@ -85,6 +85,7 @@ class History:
         self.stats = {"ops": 0, "api_calls": 0, "merges": 0, "ambiguous_merges": 0, "lazy_batches": [], "failed_loads": 0,
                       "probes": 0, "lookups": 0, "uniq_lookups": 0, "verified_entities": 0, "faults_fired": {}}
         self.dbs = build_universe(plan["universe"], real_dir)
+        self.real_paths = [os.path.join(real_dir, n) for n in plan["universe"].get("real", [])]
         self.bytes = []
         self.paths = []
         self.faults = {int(k): v for k, v in plan.get("faults", {}).items()}
@@ -214,7 +215,12 @@ class History:
         d.library_name = db["library_name"] if op.get("libname", True) else None
         d.library_hash_name = op["hash"].encode() if op.get("hash") else db["library_hash_name"]
         d.module_name = db["module_name"]
-        if op.get("range", True):
+        if op.get("range", True) == "generated":
+            # exactly what the generated code registers
+            with open(self.real_paths[li] + ".range") as fh:
+                a, b = fh.read().split()
+            d.first_index, d.next_index = int(a), int(b)
+        elif op.get("range", True):
             d.first_index = 1
             d.next_index = 1 + total + (f.get("delta", 1) if f and f["kind"] == "stale" else 0)
         nw = len(db["wrappers"])
